@@ -604,6 +604,8 @@ func (h *Header) EncodeHeaderBlock() []byte {
 	return e.b
 }
 
+const padVarintFlag = 1 << 30
+
 func deflate(data []byte, level int) []byte {
 	var buf bytes.Buffer
 	w, _ := zlib.NewWriterLevel(&buf, level)
@@ -616,6 +618,8 @@ func deflate(data []byte, level int) []byte {
 // damage. It returns the bytes and the offsets (relative to the start of the block) just
 // after the size prefix and just after the BlobHeader.
 func EncodeFileBlock(typ string, payload []byte, useZlib bool, level int, indexLen int, dmg Damage) (out []byte, prefixEnd, hdrEnd int) {
+	padVarint := indexLen&padVarintFlag != 0
+	indexLen &^= padVarintFlag
 	var blob enc
 	switch {
 	case dmg.Kind == "unknown-encoding":
@@ -684,7 +688,19 @@ func EncodeFileBlock(typ string, payload []byte, useZlib bool, level int, indexL
 	case "datasize-negative":
 		ds = -1 - dmg.Arg
 	}
-	hdr.varint(3, uint64(int64(int32(ds))))
+	if padVarint && ds >= 0 {
+		// a writer that reserves room and patches the size in afterwards: the same number as
+		// a fixed-width, non-minimal varint (five bytes), which every protobuf parser accepts
+		hdr.b = protowire.AppendTag(hdr.b, 3, protowire.VarintType)
+		v := uint64(ds)
+		for i := 0; i < 4; i++ {
+			hdr.b = append(hdr.b, byte(v&0x7f)|0x80)
+			v >>= 7
+		}
+		hdr.b = append(hdr.b, byte(v&0x7f))
+	} else {
+		hdr.varint(3, uint64(int64(int32(ds))))
+	}
 	hdrBytes := hdr.b
 	if dmg.Kind == "garbage-blobheader" {
 		hdrBytes = bytes.Repeat([]byte{0xFF}, 12)
